@@ -488,8 +488,18 @@ def compute_next_state(state: State, event: dict) -> State:
         ]:
             continue
 
-        # We try to slide first, just in case a flow starts with sliding logic
-        start_head = slide(new_state, flow_config, 0)
+        # We try to slide first, just in case a flow starts with sliding logic.
+        # This is only a probe: the statements must not have any effect unless the
+        # flow is actually started, so we slide on a scratch state.
+        probe_state = State(
+            context=dict(new_state.context),
+            flow_states=[],
+            flow_configs=new_state.flow_configs,
+            rails_config=new_state.rails_config,
+        )
+        start_head = slide(probe_state, flow_config, 0)
+        if start_head is None or start_head < 0:
+            continue
 
         # If the first element matches the current event, we start a new flow
         # (for a flow that starts with a branching point, the first matching branch)
@@ -504,6 +514,10 @@ def compute_next_state(state: State, event: dict) -> State:
             matching_head = start_head + 1
 
         if matching_head:
+            # The flow starts: the leading statements take effect now
+            new_state.context.update(probe_state.context_updates)
+            new_state.context_updates.update(probe_state.context_updates)
+
             flow_uid = new_uuid()
             flow_state = FlowState(
                 uid=flow_uid, flow_id=flow_config.id, head=matching_head
